@@ -742,7 +742,7 @@ func getMut(p *an.Prog) *mutAnalysis {
 func runM1(p *an.Prog, r *an.Result) {
 	roles := GetRoles(p)
 	ma := getMut(p)
-	for _, pr := range roles.Problems {
+	for _, pr := range roles.FilterProblems {
 		r.Bad("-", "roles: "+pr, token.NoPos, "an anchor the rule needs could not be resolved")
 	}
 	r.Counts["filters"] = len(roles.Filters)
